@@ -18,15 +18,15 @@ import (
 
 // Ctx is what every rule receives.
 type Ctx struct {
-	P        *core.Prog
-	R        *core.Report
-	Repo     string
-	Verif    string
-	Thorough bool
-	findIdx   map[*ssa.Function]*findIndex
-	nonEmpty  map[*ssa.Parameter]int
-	addrTaken map[*ssa.Function]bool
-	shrinkers map[*types.Var]map[*types.Func]bool
+	P          *core.Prog
+	R          *core.Report
+	Repo       string
+	Verif      string
+	Thorough   bool
+	findIdx    map[*ssa.Function]*findIndex
+	nonEmpty   map[*ssa.Parameter]int
+	addrTaken  map[*ssa.Function]bool
+	shrinkers  map[*types.Var]map[*types.Func]bool
 	boundsSeen map[string]bool
 
 	cfgs     map[*ast.FuncDecl]*cfg.CFG
